@@ -9,6 +9,7 @@ import (
 
 	flags "github.com/jessevdk/go-flags"
 
+	"verif/mc/decl"
 	"verif/mc/explore"
 	"verif/mc/ref"
 )
@@ -315,7 +316,7 @@ func init() {
 				c.Skip()
 			}
 			how := c.Choose(3)
-			what := c.Choose(8)
+			what := c.Choose(9)
 			nAlias := c.Choose(4)
 			inner := reflect.StructOf([]reflect.StructField{sfield("X", strT, `long:"x"`)})
 			posInner := reflect.StructOf([]reflect.StructField{sfield("A", strT, ""), sfield("R", reflect.TypeOf([]string{}), "")})
@@ -417,6 +418,17 @@ func init() {
 						return "positional-default-name", "R", as[1].Name
 					}
 					return "positional-range", [2]int{2, 5}, [2]int{as[1].Required, as[1].RequiredMaximum}
+				}
+			case 8:
+				// the marks of a command field: any non-empty value sets them (a value of one character too)
+				fields = []reflect.StructField{sfield("C", reflect.StructOf([]reflect.StructField{sfield("X", strT, `long:"x"`), sfield("S", inner, `command:"sub"`)}),
+					`command:"cmd" subcommands-optional:`+rv+` hidden:`+rv)}
+				verify = func(p *flags.Parser) (string, interface{}, interface{}) {
+					cm := p.Commands()[0]
+					if !cm.SubcommandsOptional {
+						return "command-subcommands-optional-mark", true, false
+					}
+					return "command-hidden-mark", true, cm.Hidden
 				}
 			case 7:
 				// two commands declared in non-alphabetical order: the public list keeps the declaration order, also after
@@ -602,11 +614,18 @@ func init() {
 			}
 		case 5: // defaults on boolean flags
 			t := []reflect.Type{boolT, reflect.TypeOf([]bool{}), reflect.TypeOf((*bool)(nil)), strT, reflect.TypeOf([]string{}),
-				reflect.TypeOf([]*bool{}), reflect.TypeOf((**bool)(nil)), reflect.TypeOf((*[]bool)(nil)), reflect.TypeOf(func() {})}[c.Choose(9)]
+				reflect.TypeOf([]*bool{}), reflect.TypeOf((**bool)(nil)), reflect.TypeOf((*[]bool)(nil)), reflect.TypeOf(func() {}),
+				// bool-kinded, but with an Unmarshaler of their own (pointer receiver): they take an argument, so a default is legal
+				reflect.TypeOf(decl.OnOff(false)), reflect.TypeOf([]decl.OnOff{}), reflect.TypeOf((*decl.OnOff)(nil))}[c.Choose(12)]
 			n := c.Choose(3)
 			tag := `long:"flag"`
+			takesArgument := strings.Contains(t.String(), "OnOff")
 			for i := 0; i < n; i++ {
-				tag += ` default:"true"`
+				if takesArgument {
+					tag += ` default:"on"`
+				} else {
+					tag += ` default:"true"`
+				}
 			}
 			c.Describe(func() interface{} {
 				return map[string]interface{}{"part": "bool-default", "type": t.String(), "tag": tag}
@@ -617,7 +636,7 @@ func init() {
 				return
 			}
 			c.Outcome("booldefault", t.String(), fmt.Sprint(n), errType(err))
-			isBool := t != strT && t.String() != "[]string"
+			isBool := t != strT && t.String() != "[]string" && !takesArgument
 			if isBool && n > 0 {
 				c.Hit("bool-default")
 				if !isErrType(err, flags.ErrInvalidTag) {
@@ -635,7 +654,7 @@ func init() {
 		Body:       body,
 		Rule: "(i) every tag string of length <= 8 (quick) / <= 9 (thorough) over {a : \" \\ space LF}, alone and behind a well-formed long:\"opt\", classified by a reference tag grammar (accept / reject / grey); " +
 			"(ii) 9 option attributes x 15 values (blanks, quotes, backslashes, line breaks, tabs, multi-byte text, empty, colons) x 3 escape renderings (strconv.Quote, all-\\xNN, octal+raw) x 1..3 repetitions x 1..3 blanks; " +
-			"(iii) required/optional/hidden x 9 spellings x present/absent x short names of 0/1/2 characters incl. multi-byte; (iv) group name/namespace/env-namespace, command name + 0..3 aliases, two commands in non-alphabetical order (Commands() keeps the declaration order), descriptions, positional names, ranges and minimum counts (0..4) x values x renderings; " +
+			"(iii) required/optional/hidden x 9 spellings x present/absent x short names of 0/1/2 characters incl. multi-byte; (iv) group name/namespace/env-namespace, command name + 0..3 aliases, two commands in non-alphabetical order (Commands() keeps the declaration order), a command field's subcommands-optional and hidden marks (set by any non-empty value, also of one character), descriptions, positional names, ranges and minimum counts (0..4) x values x renderings; " +
 			"(v) every pair of placements {top, plain subgroup, namespaced, doubly namespaced} x {same name, near miss, collision created by namespaces} x {long, short incl. non-ASCII} x {declared through NewParser, on a subcommand's struct, added with (*Group).AddGroup to an existing group, NewNamedParser with NamespaceDelimiter \"-\" set before AddGroup}; (malformed tag strings of <= 5 bytes also on a field of a positional-args struct; every declaration whose first field's tag has an even length is followed by a successful AddGroup before the first use: a setup error must survive it); (vi) default tags on bool / []bool / *bool / []*bool / **bool / *[]bool / func() vs string types; " +
 			"oracle: exported model fields echo the attributes exactly, malformed tags => ErrTag, long short name => ErrShortNameTooLong, bool default => ErrInvalidTag, colliding names => ErrDuplicatedFlag, never a panic; distinct = distinct (part, cell, error class)",
 		Assumptions:  []string{"keys containing control characters or backslashes, and empty keys, are grey (no panic, any error typed)", "single-valued keys are repeated with the same value only", "falsy spellings false/no/0 do not set a mark on options (pinned by the repository's tests)"},
